@@ -711,15 +711,15 @@ type factWalker struct {
 
 func isRegName(n string) bool { return len(n) > 4 && n[:4] == "reg_" }
 
-func (w *factWalker) fresh() int { w.next++; return w.next }
+func (w *factWalker) fresh() int     { w.next++; return w.next }
 func (w *factWalker) top() factScope { return w.scopes[len(w.scopes)-1] }
 func (w *factWalker) pushBlock() {
 	m := w.fresh()
 	w.maps[m] = map[string]bool{}
 	w.scopes = append(w.scopes, factScope{m, w.top().r})
 }
-func (w *factWalker) pushCtx() { w.scopes = append(w.scopes, factScope{w.top().m, w.fresh()}) }
-func (w *factWalker) pop()     { w.scopes = w.scopes[:len(w.scopes)-1] }
+func (w *factWalker) pushCtx()     { w.scopes = append(w.scopes, factScope{w.top().m, w.fresh()}) }
+func (w *factWalker) pop()         { w.scopes = w.scopes[:len(w.scopes)-1] }
 func (w *factWalker) def(n string) { w.maps[w.top().m][n] = true }
 
 // foundIn returns the result buffer of the first scope of the chain whose map holds n.
